@@ -750,7 +750,8 @@ class DeferQueue:
 
     def __init__(self):
         self._writes = []
-        self._pending_offsets = set()
+        # Dict[offset, length of the longest queued data for that offset]
+        self._pending_offsets = {}
         self._next_offset = 0
 
     def request_writes(self, offset, data):
@@ -766,23 +767,33 @@ class DeferQueue:
         each method call.
 
         """
-        if offset < self._next_offset:
+        if offset < self._next_offset and (
+            offset + len(data) <= self._next_offset
+        ):
             # This is a request for a write that we've already
-            # seen.  This can happen in the event of a retry
+            # seen in full.  This can happen in the event of a retry
             # where if we retry at at offset N/2, we'll requeue
             # offsets 0-N/2 again.
             return []
         writes = []
-        if offset in self._pending_offsets:
-            # We've already queued this offset so this request is
-            # a duplicate.  In this case we should ignore
-            # this request and prefer what's already queued.
+        if self._pending_offsets.get(offset, -1) >= len(data):
+            # We've already queued at least this much data for this
+            # offset so this request is a duplicate.  In this case we
+            # should ignore this request and prefer what's already queued.
             return []
         heapq.heappush(self._writes, (offset, data))
-        self._pending_offsets.add(offset)
-        while self._writes and self._writes[0][0] == self._next_offset:
-            next_write = heapq.heappop(self._writes)
-            writes.append({'offset': next_write[0], 'data': next_write[1]})
-            self._pending_offsets.remove(next_write[0])
-            self._next_offset += len(next_write[1])
+        self._pending_offsets[offset] = len(data)
+        while self._writes and self._writes[0][0] <= self._next_offset:
+            next_offset, next_data = heapq.heappop(self._writes)
+            if self._pending_offsets.get(next_offset) == len(next_data):
+                del self._pending_offsets[next_offset]
+            # A retried request may redeliver data with different chunk
+            # boundaries, so queued data can overlap what has already been
+            # written: only the part past the written prefix is new.
+            seen = self._next_offset - next_offset
+            if seen and seen >= len(next_data):
+                continue
+            next_data = next_data[seen:]
+            writes.append({'offset': self._next_offset, 'data': next_data})
+            self._next_offset += len(next_data)
         return writes
